@@ -519,21 +519,30 @@ impl ObjectStore for GateStore {
                         if let Ok(b) = cur.bytes().await {
                             let n = b.len();
                             let r = self.ctl.backing.put(location, b.clone().into()).await;
-                            let (creq, _) = (req, ());
-                            self.ctl.log(Event {
-                                seq: 0,
-                                req: creq,
-                                actor: "contender".to_string(),
-                                call: false,
-                                op: "PUT".to_string(),
-                                path: path.clone(),
-                                mode: "overwrite(same-content)".to_string(),
-                                wall_ns: crate::clock::wall_ns(),
-                                result: if r.is_ok() { "ok".to_string() } else { "error".to_string() },
-                                etag: r.ok().and_then(|p| p.e_tag),
-                                payload: Some(b),
-                                len: n,
-                            });
+                            // logged like any other client's PUT (own request number, call + return), so
+                            // that monitors walking the committed versions see a version with the old content
+                            let creq = {
+                                let mut g = self.ctl.inner.lock();
+                                let q = g.next_req;
+                                g.next_req += 1;
+                                q
+                            };
+                            for call in [true, false] {
+                                self.ctl.log(Event {
+                                    seq: 0,
+                                    req: creq,
+                                    actor: "contender".to_string(),
+                                    call,
+                                    op: "PUT".to_string(),
+                                    path: path.clone(),
+                                    mode: "overwrite(same-content)".to_string(),
+                                    wall_ns: crate::clock::wall_ns(),
+                                    result: if call { String::new() } else if r.is_ok() { "ok".to_string() } else { "error".to_string() },
+                                    etag: if call { None } else { r.as_ref().ok().and_then(|p| p.e_tag.clone()) },
+                                    payload: if call { Some(b.clone()) } else { None },
+                                    len: n,
+                                });
+                            }
                         }
                     }
                 }
